@@ -293,6 +293,35 @@ func (c c02) Case(w *core.WCtx, payload json.RawMessage) core.Result {
 				viol(c.sigData(tr, s), img, "image %d (%s; acked ops %v in flight %v): recovered %s, acceptable: %s", img, where, s.Acked, s.Inflight, mapStr(got), strings.Join(wants, " or "))
 			}
 		}
+		// the directory of a session with compactions is also re-opened by a session that has compactions switched off
+		// (and one with a 1-byte memstore limit and no file threshold): what an interrupted compaction left behind must be
+		// dealt with whatever the options of the next session are
+		hasCompaction := false
+		for _, o := range cs.Sess.Ops {
+			hasCompaction = hasCompaction || o.Op == "compact" || o.Op == "gocompact"
+		}
+		if hasCompaction && exit == 0 && d.OpenErr == "" && len(r.Viol) == 0 {
+			for _, ro := range []string{"nocompaction", "mem1,thresh0"} {
+				d3, exit3, stderr3, err := recoverImageWith(tr, tr.Images[img], rdir, crashKeys, ro)
+				r.Traces++
+				r.Extra["recoveries_with_other_options"]++
+				switch {
+				case err != nil:
+					viol("", img, "harness: %v", err)
+				case exit3 != 0 || d3.OpenErr != "":
+					viol("other-options:open-fails", img, "image %d (%s): re-opened with options [%s]: Open failed: exit %d %s %s", img, ss[0].Desc, ro, exit3, d3.OpenErr, stderr3)
+				default:
+					got3 := dumpMap(d3)
+					for _, s := range ss {
+						r.Evals++
+						if ok, wants := c.acceptable(cs, s, got3); !ok {
+							viol("other-options:data-differs", img, "image %d (%s; acked ops %v in flight %v): re-opened with options [%s]: reads %s, acceptable: %s", img, s.Desc, s.Acked, s.Inflight, ro, mapStr(got3), strings.Join(wants, " or "))
+							break
+						}
+					}
+				}
+			}
+		}
 		// a second kill right after the recovery: the process that re-opened the directory is stopped the moment Open has
 		// returned (nothing it holds only in memory may be needed), and the directory it leaves is recovered once more
 		anyAcked := false
